@@ -1,3 +1,4 @@
+import time
 # engine.py — shared machinery of bin/check: build, run implementation / model /
 # spec on case files, compare projected observables, classify, shrink, write
 # evidence and replay files.
@@ -67,6 +68,31 @@ def run_impl(wd, cases, tag='impl', timeout_ms=10000, binary='harness', extra_en
     if len(out) != len(cases):
         raise Infra('harness returned %d lines for %d cases' % (len(out), len(cases)))
     return out
+
+
+def timed_out(o):
+    o = o.strip()
+    return o == '99' or o.endswith('| 99')
+
+
+def rerun_slow(wd, cases, out, skip, tag, binary='harness', extra_env=None):
+    """Cases that did not answer within the deadline are run once more, alone and with a long deadline
+    (gmars expands one FOR block per pass, at most 1000 passes: minutes, not a hang) - except those in
+    `skip` (the executable model itself could not finish them: FOR counts beyond the bound of C05)."""
+    slow = [i for i, o in enumerate(out) if timed_out(o) and i not in skip]
+    if not slow:
+        return out
+    t0 = time.time()
+    again = run_impl(wd, [cases[i] for i in slow], tag=tag + '.slow', timeout_ms=SLOW_MS, binary=binary, extra_env=extra_env)
+    for i, o in zip(slow, again):
+        if not timed_out(o):
+            SLOW_CASES.append(dict(case=cases[i][:200], seconds_for_the_batch=round(time.time() - t0, 1)))
+        out[i] = o
+    return out
+
+
+SLOW_MS = int(os.environ.get('VERIF_SLOW_SECONDS', '400')) * 1000
+SLOW_CASES = []
 
 
 def _big_stack():
